@@ -71,3 +71,24 @@ package tchannel
 //@   effect bounded
 //@   modifies all
 //@   property C05
+
+// Functions called inside the non-blocking critical sections above.
+//@ func (mexset *messageExchangeSet) addExchange(mex *messageExchange) (err error)
+//@   effect nonblocking
+//@   property C05
+
+//@ func (mexset *messageExchangeSet) deleteExchange(msgID uint32) (found bool, timedOut bool)
+//@   effect nonblocking
+//@   property C05
+
+//@ func (is *idleSweep) Stop()
+//@   effect nonblocking
+//@   property C05
+
+//@ func (c *Connection) getLastActivityReadTime() (t time.Time)
+//@   effect nonblocking
+//@   property C05
+
+//@ func (c *Connection) getLastActivityWriteTime() (t time.Time)
+//@   effect nonblocking
+//@   property C05
